@@ -32,6 +32,9 @@ func ProbeMain() {
 		switch {
 		case res.Panic != nil:
 			fmt.Printf("%s\n  => PANIC %s at %s\n", q, res.Panic.Value, res.Panic.Site)
+			if os.Getenv("VERIF_DEBUG") != "" {
+				fmt.Println(res.Panic.Stack)
+			}
 		case res.TimedOut:
 			fmt.Printf("%s\n  => TIMEOUT\n", q)
 		case res.Err != nil:
